@@ -545,12 +545,30 @@ fn cli_cases(_t: Tier) -> Vec<CliMeta> {
         "",
         "\u{feff}bom",
         "line\nbreak",
+        "Recording 12\n",
+        "Recording 13\r\n",
+        "Recording 14\r",
+        "\nleading newline",
+        "trailing tab\t",
+        "trailing nbsp\u{a0}",
+        "ends with backslash\\",
+        "ends with dot.",
+        "file.mp4",
+        "#hashtag; rm -rf",
     ];
     let mut v = Vec::new();
     for (i, t) in titles.iter().enumerate() {
         v.push(CliMeta { title: Some(t.to_string()), lang: if i % 3 == 0 { Some(["deu", "zxx", "qaa", "eng"][i / 3 % 4].to_string()) } else { None }, audio: i % 4 == 1 });
     }
-    for l in ["eng", "und", "fra", "zzz", "aaa"] {
+    // ISO 639-2 codes that have a bibliographic and a terminologic spelling (both are three lower-case letters: each must be
+    // stored as given), macro / special codes
+    for l in [
+        "eng", "und", "fra", "zzz", "aaa", "ger", "deu", "fre", "dut", "nld", "cze", "ces", "gre", "ell", "chi", "zho", "per", "fas", "rum", "ron", "slo", "slk", "wel", "cym", "baq", "eus", "arm", "hye", "geo",
+        "kat", "ice", "isl", "mac", "mkd", "mao", "mri", "may", "msa", "tib", "bod", "alb", "sqi", "bur", "mya", "mul", "mis", "zxx", "qaa", "qtz", "scc", "scr", "mol", "iw ", "heb",
+    ]
+    .into_iter()
+    .filter(|l| l.bytes().all(|b| b.is_ascii_lowercase()))
+    {
         v.push(CliMeta { title: None, lang: Some(l.to_string()), audio: l == "fra" });
     }
     v.push(CliMeta { title: None, lang: None, audio: true });
